@@ -89,6 +89,21 @@ Definition crash_ix (s : store) (keep : nat) (fs : list ifiles) : store * list r
 Definition reopen_ix (s : store) (fs : list ifiles) : store * list rseg :=
   (reopen s, open_sealed_all (sealed s) fs).
 
+(** ** which segments are sealed: DatabaseBuilder::open's directory scan.
+    [dirs] = the segment directories of a bucket: (segment id, has an events file).  A rollover creates the next
+    segment's directory first and its events file second; dying in between leaves a directory without one.  The
+    writer (BucketSegmentWriter::latest) takes the newest segment WITH an events file as the live one; every other
+    segment with an events file is sealed. *)
+Definition newest (ids : list N) : N := fold_left N.max ids 0.
+Definition scan_sealed (dirs : list (N * bool)) : list N :=
+  let with_events := map fst (filter snd dirs) in
+  filter (fun i => negb (i =? newest with_events)) with_events.
+(* before the repair the newest DIRECTORY was taken for the live segment, events file or not: after such a crash
+   the real live segment was opened as a sealed one as well *)
+Definition scan_sealed_v0 (dirs : list (N * bool)) : list N :=
+  filter (fun i => negb (i =? newest (map fst dirs))) (map fst (filter snd dirs)).
+Definition live_of (dirs : list (N * bool)) : N := newest (map fst (filter snd dirs)).
+
 (** ** lookups in a sealed segment (database.rs read_transaction, bucket/iter.rs try_get_from_reader_set) *)
 Definition ev_eqb (a b : event) : bool :=
   (e_id a =? e_id b) && (e_pid a =? e_pid b) && (e_seq a =? e_seq b) && (e_sid a =? e_sid b) && (e_ver a =? e_ver b) &&
